@@ -312,3 +312,53 @@ def run(ctx):
     r06a(ctx)
     r06b(ctx)
     r06c(ctx)
+
+
+from ..selftest import Seed, unparse_seed  # noqa: E402
+
+_ET = "src/odfdo/element_typed.py"
+SEEDS = [
+    Seed("meta: date arm before datetime arm", "fault", "src/odfdo/meta.py",
+         '''        elif isinstance(value, datetime):
+            value_type = "date"
+            value = str(DateTime.encode(value))
+        elif isinstance(value, dtdate):
+            value_type = "date"
+            value = str(Date.encode(value))
+''', '''        elif isinstance(value, dtdate):
+            value_type = "date"
+            value = str(Date.encode(value))
+        elif isinstance(value, datetime):
+            value_type = "date"
+            value = str(DateTime.encode(value))
+''', "R06a"),
+    Seed("element_typed: int arm before bool arm", "fault", _ET,
+         "        if isinstance(value, bool):\n            if value_type is None:\n                value_type = \"boolean\"",
+         "        if isinstance(value, int):\n            value_type = value_type or \"float\"\n            text = text or str(value)\n            value = str(value)\n        elif isinstance(value, bool):\n            if value_type is None:\n                value_type = \"boolean\"", "R06a"),
+    Seed("cell.value setter: date before datetime", "fault", "src/odfdo/cell.py",
+         "        elif isinstance(value, datetime):\n            self.datetime = value\n        elif isinstance(value, date):\n            self.date = value",
+         "        elif isinstance(value, date):\n            self.date = value\n        elif isinstance(value, datetime):\n            self.datetime = value", "R06a"),
+    Seed("writer stores boolean into office:value", "fault", _ET,
+         'self.set_attribute("office:boolean-value", value)', 'self.set_attribute("office:value", value)', "R06b"),
+    Seed("reader reads date in the time arm", "fault", _ET,
+         'read_value = self.get_attribute("office:time-value")', 'read_value = self.get_attribute("office:date-value")', "R06b"),
+    Seed("reader drops the T split", "fault", _ET,
+         '            if "T" in read_attribute:\n                return (DateTime.decode(read_attribute), value_type)\n',
+         '', "R06b"),
+    Seed("Cell.value decodes time with DateTime", "fault", "src/odfdo/cell.py",
+         'return Duration.decode(str(self.get_attribute_string("office:time-value")))',
+         'return DateTime.decode(str(self.get_attribute_string("office:time-value")))', "R06b"),
+    Seed("meta reader decodes time with Date", "fault", "src/odfdo/meta.py",
+         "return (Duration.decode(text), value_type, text)", "return (Date.decode(text), value_type, text)", "R06b"),
+    Seed("meta stores timedelta as string", "fault", "src/odfdo/meta.py",
+         '            value_type = "time"\n            value = str(Duration.encode(value))',
+         '            value_type = "string"\n            value = str(Duration.encode(value))', "R06c"),
+    Seed("Cell.duration setter writes value-type date", "fault", "src/odfdo/cell.py",
+         'self.set_attribute("office:value-type", "time")', 'self.set_attribute("office:value-type", "date")', "R06c"),
+    Seed("date-value attribute no longer cleared", "fault", _ET,
+         '            "office:date-value",\n            "office:string-value",', '            "office:string-value",', "R06b"),
+    unparse_seed(_ET), unparse_seed("src/odfdo/meta.py"), unparse_seed("src/odfdo/cell.py"),
+    Seed("reader rewritten with elif chain", "neutral", _ET,
+         '        if value_type == "string":\n            value = self.get_attribute("office:string-value")',
+         '        elif value_type == "string":\n            value = self.get_attribute("office:string-value")'),
+]
